@@ -5,7 +5,7 @@ CONSTANTS Variant = "ok"
  MCN = 3
  MCTs = {2}
  MCVs = {2}
- PolyMode = "few"
+ PolyMode = "one"
  OrderMode = "eager"
  MaxDup = 1
 INVARIANTS TypeOK NoFailure ThresholdIsT Agreement KeyedByShareIdx OwnShareMatches GroupKeyIsSum AnyTRecover AnyTSign BelowThresholdSafe
